@@ -168,6 +168,23 @@ Theorem C03_cond_domain_scoped : forall (cond : N -> list N -> bool) s a b d,
 Proof. exact cdm_domain_scoped. Qed.
 Print Assumptions C03_cond_domain_scoped.
 
+(* conditional domain manager over histories (adds, deletes, clears, listings, condition
+   registrations in any order): the manager of domain d holds exactly the assignments recorded
+   for d, and has_link in d is reachability over those that pass their condition *)
+Theorem C03_cond_domain_links_scoped : forall L ops d,
+  crm_rm (cdm_get (cdm_run (cdm_empty L) ops) d) = rm_run (rm_empty L) (cdm_proj d ops).
+Proof. exact cdm_links_scoped. Qed.
+Print Assumptions C03_cond_domain_links_scoped.
+
+Theorem C03_cond_domain_reach_history : forall (cond : N -> list N -> bool) L ops a b d,
+  no_double_add (cdm_proj d ops) = true ->
+  let m := cdm_get (cdm_run (cdm_empty L) ops) d in
+  (cdm_has_link cond (cdm_run (cdm_empty L) ops) a b d = true <->
+   exists k, k <= L /\
+     path (fun x y => In (x, y) (links_spec (cdm_proj d ops)) /\ crm_pass cond m x y d = true) k a b).
+Proof. exact cdm_reach_history. Qed.
+Print Assumptions C03_cond_domain_reach_history.
+
 (* ---- non-vacuity: a concrete history with a cycle, a self-assignment, a diamond, a deletion and
         a re-addition; guards hold; answers computed ---- *)
 Example C03_example :
@@ -196,3 +213,25 @@ Example C03_example_cond :
   crm_has_link (table_cond tbl) (crm_run (crm_empty 10) ops) 1%N 3%N [] = false /\
   crm_has_link (table_cond tbl) (crm_run (crm_empty 10) (ops ++ [CParams 2 3 0 [5]]))%N 1%N 3%N [] = true.
 Proof. vm_compute. split; reflexivity. Qed.
+
+Example C03_example_cond_domain :
+  let tbl := [(1, [5], false)]%N in
+  let ops := [KAdd 1 2 3; KAdd 2 3 3; KAdd 1 3 4; KFn 1 2 3 1; KParams 1 2 3 [5]]%N in
+  no_double_add (cdm_proj 3%N ops) = true /\
+  cdm_has_link (table_cond tbl) (cdm_run (cdm_empty 10) ops) 1 3 3%N = false /\   (* condition false *)
+  cdm_has_link (table_cond tbl) (cdm_run (cdm_empty 10) ops) 2 3 3%N = true /\
+  cdm_has_link (table_cond tbl) (cdm_run (cdm_empty 10) ops) 1 3 4%N = true /\    (* other domain *)
+  cdm_has_link (table_cond tbl) (cdm_run (cdm_empty 10) ops) 1 2 4%N = false.
+Proof. vm_compute. repeat split; reflexivity. Qed.
+
+(* a quirk outside the property's quantifier, recorded because it fails open: the conditional DOMAIN
+   manager pushes a condition only into the per-domain managers that exist at that moment
+   (role_manager.py 515-517), so a condition registered before the domain has received its first
+   link is silently dropped — unlike in the plain conditional manager (C03_example_cond registers
+   before or after alike) *)
+Example C03_cond_domain_early_registration_dropped :
+  let tbl := [(1, [], false)]%N in
+  cdm_has_link (table_cond tbl) (cdm_run (cdm_empty 10) [KFn 1 2 3 1; KAdd 1 2 3]%N) 1 2 3%N = true /\
+  cdm_has_link (table_cond tbl) (cdm_run (cdm_empty 10) [KAdd 1 2 3; KFn 1 2 3 1]%N) 1 2 3%N = false /\
+  crm_has_link (table_cond tbl) (crm_run (crm_empty 10) [CFn 1 2 3 1; CLink (OAdd 1 2)]%N) 1 2 [3]%N = false.
+Proof. vm_compute. repeat split; reflexivity. Qed.
